@@ -15,13 +15,29 @@ static ssize_t script_read(void *c, char *buf, size_t n) {
 }
 static int script_close(void *c) { ((ScriptCookie *) c)->closed = true; return 0; }
 
+// simulated terminal: captures what the tool prints, with a ceiling - a tool that prints without end does not return
+struct TermCookie { std::string data; };
+static const size_t TERM_CAP = 24u << 20;
+static ssize_t term_write(void *c, const char *buf, size_t n) {
+	TermCookie *t = (TermCookie *) c;
+	t->data.append(buf, n);
+	if (t->data.size() > TERM_CAP && t_budget_jb) {
+		g_sim.budget_tripped = true;
+		g_sim.budget_where = "terminal output without end";
+		jmp_buf *jb = t_budget_jb;
+		t_budget_jb = nullptr;
+		longjmp(*jb, 1);
+	}
+	return (ssize_t) n;
+}
+
 CliResult run_cli(const std::vector<std::string> &args, const std::string &script, SimSource *stdin_src) {
 	CliResult res;
 	FILE *old_out = stdout, *old_err = stderr, *old_in = stdin;
-	char *obuf = nullptr, *ebuf = nullptr;
-	size_t olen = 0, elen = 0;
-	FILE *o = open_memstream(&obuf, &olen);
-	FILE *e = open_memstream(&ebuf, &elen);
+	TermCookie *oc = new TermCookie, *ec = new TermCookie;
+	cookie_io_functions_t tio = {nullptr, term_write, nullptr, nullptr};
+	FILE *o = fopencookie(oc, "w", tio);
+	FILE *e = fopencookie(ec, "w", tio);
 	ScriptCookie *sc = nullptr;
 	FILE *in;
 	if (stdin_src) in = stdin_src->open_file();
@@ -74,9 +90,11 @@ CliResult run_cli(const std::vector<std::string> &args, const std::string &scrip
 	res.status = status;
 	res.exited = how == 1;
 	res.budget = how == 2;
-	if (obuf) res.out.assign(obuf, olen);
-	if (ebuf) res.err.assign(ebuf, elen);
-	free(obuf);
-	free(ebuf);
+	res.out.swap(oc->data);
+	res.err.swap(ec->data);
+	if (res.out.size() > TERM_CAP) res.out.resize(TERM_CAP);
+	if (res.err.size() > TERM_CAP) res.err.resize(TERM_CAP);
+	delete oc;
+	delete ec;
 	return res;
 }
